@@ -33,7 +33,7 @@ func init() {
 	register(&Property{
 		ID:      "C04",
 		NeedSSA: true,
-		Decided: "Narrow structural necessary conditions only: (dst) in every Encode/Decode method under encoding/ the reusable output buffer (and the offsets buffer of DecodeByteArray) is only truncated, measured with cap(), passed to a helper obeying the same rule, reinterpreted with unsafecast, or returned — results cannot depend on what the buffers held before; (tables) the encoding tables map each code to the implementation that reports it (C01.tables); (twins) the tree type-checks in every build configuration (amd64, purego, arm64, 386, s390x; thorough tier) so each accelerated kernel has a portable twin with the same signature. (pairs) for every page encoding the kinds with an Encode method of its own are exactly the kinds with a Decode method of its own. (viewstate) when Slice of a page type computes an integer field as a position inside a unit (x % 8), the Data method of the type reads that field, directly or through a method of the same receiver. (offsetsrc) every use of the src parameter of an EncodeByteArray method goes through a slice or an index of it (or measures it): the values are the bytes the offsets cover.",
+		Decided: "Narrow structural necessary conditions only: (dst) in every Encode/Decode method under encoding/ the reusable output buffer (and the offsets buffer of DecodeByteArray) is only truncated, measured with cap(), passed to a helper obeying the same rule, reinterpreted with unsafecast, or returned — results cannot depend on what the buffers held before; (tables) the encoding tables map each code to the implementation that reports it (C01.tables); (twins) the tree type-checks in every build configuration (amd64, purego, arm64, 386, s390x; thorough tier) so each accelerated kernel has a portable twin with the same signature. (pairs) for every page encoding the kinds with an Encode method of its own are exactly the kinds with a Decode method of its own. (viewstate) when Slice of a page type computes an integer field as a position inside a unit (x % 8), the Data method of the type reads that field, directly or through a method of the same receiver. (offsetsrc) every use of the src parameter of an EncodeByteArray method goes through a slice or an index of it (or measures it): the values are the bytes the offsets cover. (inplace) the branch taken when an encoding's CanDecodeInPlace() is true — the one that hands the page buffer to the decoder as its destination — is entered from that test alone: further conditions may narrow it, no alternative condition widens it.",
 		NotDecided: "losslessness, conformance with the format specification, equality of assembly and portable kernels (assembly is not analysed), bit-level arithmetic inside encoders and decoders (a wrong index, an off-by-one guard or a wrong copy source inside a kernel is invisible to these rules).",
 		Assumptions: []string{"see DESIGN.md §4 C04"},
 		Run:         runC04,
@@ -49,7 +49,7 @@ func init() {
 	register(&Property{
 		ID:      "C12",
 		NeedSSA: true,
-		Decided: "Narrow structural necessary conditions only: (polarity) the order-sensitive schema comparison recurses with the order-sensitive comparison and the order-insensitive one with itself; (insert) copyRows consults the schema comparison before it takes any fast path that bypasses conversion (RowWriterTo / RowReaderFrom), and inserts the conversion on the unequal edge; (adjacent) the choice of a sibling column to mirror for an added column compares repetition depth as well as the parent path; (errors) errors of Convert and of conversions are not dropped or swallowed; (convertvalue) ConvertValue of every physical type dispatches over every source kind or fails loudly; (marker) converted row groups never take chunk-level fast paths (C11.marker). (wrapper) every Page implementation that wraps another Page returns a value of its own type from Slice. (mergeconv) MergeRowGroups never returns a bare multi-row-group over converted inputs. (sortprefix) a loop that copies sorting columns one by one under a condition stops at the first column it rejects: the rejecting branch does not come back to the loop header, so the result is a prefix of the declared order. (insert, cont.) the RowWriterTo fast path of copyRows is asserted on the very value the slow path reads rows from (the source after the conversion was inserted), not on the reader as it was passed in. (nullable) the per-column flag of Convert that says whether the target column can hold nulls is computed from the maximum definition level of the leaf (its whole path), not from the leaf node alone.",
+		Decided: "Narrow structural necessary conditions only: (polarity) the order-sensitive schema comparison recurses with the order-sensitive comparison and the order-insensitive one with itself; (insert) copyRows consults the schema comparison before it takes any fast path that bypasses conversion (RowWriterTo / RowReaderFrom), and inserts the conversion on the unequal edge; (adjacent) the choice of a sibling column to mirror for an added column compares repetition depth as well as the parent path; (errors) errors of Convert and of conversions are not dropped or swallowed; (convertvalue) ConvertValue of every physical type dispatches over every source kind or fails loudly; (marker) converted row groups never take chunk-level fast paths (C11.marker). (wrapper) every Page implementation that wraps another Page returns a value of its own type from Slice. (mergeconv) MergeRowGroups never returns a bare multi-row-group over converted inputs. (sortprefix) a loop that copies sorting columns one by one under a condition stops at the first column it rejects: the rejecting branch does not come back to the loop header, so the result is a prefix of the declared order. (insert, cont.) the RowWriterTo fast path of copyRows is asserted on the very value the slow path reads rows from (the source after the conversion was inserted), not on the reader as it was passed in. (nullable) the per-column flag of Convert that says whether the target column can hold nulls is computed from the maximum definition level of the leaf (its whole path), not from the leaf node alone. (initorder) no call of (*reader).init that is handed the current value of a field is followed, in the same function, by a store to that field: the internal reader is initialised with the schema and row group the Reader ends up with.",
 		NotDecided: "level remapping and value equality through a conversion; behaviour on incompatible targets beyond the presence of an error path.",
 		Assumptions: []string{"see DESIGN.md §4 C12"},
 		Run:         runC12,
@@ -57,7 +57,7 @@ func init() {
 	register(&Property{
 		ID:      "C19",
 		NeedSSA: true,
-		Decided: "Narrow structural necessary conditions only: (siblings) the two entry points that write shredded variants (typed write path and row deconstruction) pass the same level context to the shared shredding implementation; (enum) the encoder, the size computation, the decoder and the shredded typed-write switch over the variant primitive and basic types cover every constant or fail loudly; (pagereset) the columnar leaf reader re-establishes every per-page field when it moves to a new page. (siblings, cont.) the sibling call sites of one callee fill each field of the literal they pass from the same source field of the same struct. (coladvance) a loop variable advanced by the result of a leaf-counting helper (numLeafColumns*) is advanced on every path around the loop.",
+		Decided: "Narrow structural necessary conditions only: (siblings) the two entry points that write shredded variants (typed write path and row deconstruction) pass the same level context to the shared shredding implementation; (enum) the encoder, the size computation, the decoder and the shredded typed-write switch over the variant primitive and basic types cover every constant or fail loudly; (pagereset) the columnar leaf reader re-establishes every per-page field when it moves to a new page. (siblings, cont.) the sibling call sites of one callee fill each field of the literal they pass from the same source field of the same struct. (coladvance) a loop variable advanced by the result of a leaf-counting helper (numLeafColumns*) is advanced on every path around the loop. (windowreset) every slice field of the columnar variant reader's per-window scratch that some function grows by append is assigned by the scratch's reset.",
 		NotDecided: "equality of decoded values, metadata dictionaries, offsets inside nested arrays and objects, shredding and reconstruction — entirely value-dependent.",
 		Assumptions: []string{"see DESIGN.md §4 C19"},
 		Run:         runC19,
@@ -372,6 +372,7 @@ func runC03(c *Ctx) {
 func runC04(c *Ctx) {
 	runViewStateRule(c, "C04.viewstate", 1)
 	c04OffsetSrc(c)
+	c04InPlace(c)
 	runDstRule(c, "C04.dst", []string{"/encoding"}, nil)
 	c.Min("C04.dst", 50)
 	runTableRule(c, "C04.tables", "encodings", "Encoding", 9)
@@ -628,6 +629,7 @@ func runC12(c *Ctx) {
 	// converted by the Rows() of the converted row groups, so the result must
 	// not be a bare multi-row-group (whose Rows() reads the flattened chunks)
 	runPrefixFilterRule(c, "C12.sortprefix", 1)
+	c12InitOrder(c)
 	if obj := c.P.LookupFunc("MergeRowGroups"); c.Anchor("C12.mergeconv", "MergeRowGroups", obj != nil) {
 		fn := c.P.SSAFunc(obj)
 		var bad []string
@@ -881,6 +883,7 @@ func runC19(c *Ctx) {
 		}
 	}
 	c.Min(rule, 7)
+	runGrownResetRule(c, "C19.windowreset", "variantLeafWindow", "(*variantLeafWindow).reset", 5)
 }
 
 // c01LazyBuffer: the column buffer of a column writer is created lazily by
